@@ -61,6 +61,9 @@ type PContext struct {
 	originIfaceValue *hack.Iface
 	// proxyFunc 代理函数, 需要内存持续持有
 	proxyFunc reflect.Value
+	// holders 持有所有方法桩代码中嵌入了地址的函数对象(回调闭包、MakeFunc 对象),
+	// 桩代码里的地址对 GC 不可见, 只要接口变量还指向本上下文就必须保活
+	holders []interface{}
 	// canceled 是否已经被取消
 	canceled bool
 }
@@ -115,6 +118,7 @@ func GenCallableMethod(ctx *IContext, apply interface{}, proxy PFunc) uintptr {
 		applyValue := reflect.ValueOf(apply)
 		mockFuncPtr := (*hack.Value)(unsafe.Pointer(&applyValue)).Ptr
 		methodCaller, err = MakeMethodCaller(mockFuncPtr)
+		ctx.p.holders = append(ctx.p.holders, apply)
 	} else {
 		// 生成桩代码,rdx 寄存器还原, 生成的调用将跳转到 proxy 函数
 		methodTyp := reflect.TypeOf(apply)
@@ -126,6 +130,7 @@ func GenCallableMethod(ctx *IContext, apply interface{}, proxy PFunc) uintptr {
 		mockFuncPtr := (*hack.Value)(unsafe.Pointer(&mockFunc)).Ptr
 		methodCaller, err = MakeMethodCallerWithCtx(mockFuncPtr, callStub)
 		ctx.p.proxyFunc = mockFunc
+		ctx.p.holders = append(ctx.p.holders, mockFunc)
 	}
 
 	if err != nil {
